@@ -15,6 +15,9 @@ Ltac step H :=
 
 Ltac steps H := repeat (step H).
 
+(** Project the fields of an explicitly given state without unfolding the store primitives. *)
+Ltac sstate := cbn [listings buckets l_used b_used fee registry_item set_listings set_buckets mark_l mark_b set_fee].
+
 Ltac unfold_handlers H :=
   unfold execute, execute_receive, execute_receive_nft,
     execute_create_listing, execute_create_listing_cw721, execute_create_bucket, execute_create_bucket_cw721,
